@@ -115,6 +115,15 @@ def gen_cases(ctx):
                      '<transition><source ref="p1"/><target ref="p0"/><label kind="assignment">spawn Child()</label></transition></template>'
                      '<system>system Parent;</system></nta>' % (escape(inv), escape(grd), escape(asg)))
                 add("xml", x, "dynamic:%s:%s" % (place, "balanced" if e.count("(") == e.count(")") else "cut"), trace=False)
+    # instantiation chains: a template whose parameters are bound level by level, the instances' own parameters sharing names with the ones
+    # they bind, some parameters used as array sizes; clean and with one level faulted (argument count, duplicate / undeclared names)
+    for ci in range(40 if not ctx.thorough else 400):
+        m = G.gen_model(r, size=1)
+        fault = r.choice([None, None, None, "fewargs", "manyargs", "dupparam", "undeclared"])
+        for _ in range(r.randint(1, 2)):
+            G.add_instance_chain(r, m, fault)
+        add("xml", G.to_xml(m), "chain" + (":" + fault if fault else ""))
+        add("xta", G.to_xta(m), "chain" + (":" + fault if fault else ""))
     for mi in range(n_models):
         m = G.gen_model(r)
         xml, xta = G.to_xml(m), G.to_xta(m)
